@@ -431,7 +431,8 @@ SPEC = PropSpec(
                  "generators independent, and no execution can show absence. R11.3: packet objects are created "
                  "inside the loop. R11.4: decision table of the loop's catch-report-continue / bad-length logic by "
                  "abstract interpretation over all streams of length <= 3 of {ok, unrecognised, too short, too long} "
-                 "x 8 option combinations vs independent per-packet semantics. R11.6: no module-level mutable read."),
+                 "x 8 option combinations vs independent per-packet semantics. R11.6: no module-level mutable read."
+                 " R11.e: the all-features stream decoded twice in a row by one definition gives, item by item, what each packet gives alone with a freshly loaded definition; the unrecognized-packet report is built by the library's own exception class and must carry the packet object."),
     rule_doc=("R11.1/R11.2 one obligation per function of the closure (or per offending effect); R11.3 per "
               "construction site; R11.4 per option combination over 84 streams; R11.6 per generator."),
     assumptions=["call graph over-approximates callees of unknown receivers by method name (safe for effect rules)",
